@@ -76,11 +76,15 @@ func init() {
 		p := a[0].(*Value)
 		ms := m.mutex(p)
 		m.schedPoint("lock")
+		// a blocked Lock call excludes new readers (sync.RWMutex: "a blocked Lock call excludes new readers from
+		// acquiring the lock"), which is what makes recursive read locking deadlock-prone
+		ms.waitingWriters++
 		m.blockUntil("Mutex.Lock", func() bool { return !ms.locked && ms.readers == 0 })
+		ms.waitingWriters--
 		ms.locked = true
 		ms.owner = m.cur
-		m.acq(ms.vc, "models.go#1")
-		m.acq(ms.rvc, "models.go#2") // a writer also comes after every reader that released before it
+		m.acq(ms.vc, "lock")
+		m.acq(ms.rvc, "lock-after-readers") // a writer also comes after every reader that released before it
 		m.lockEvent(p, "lock")
 		return nil
 	}
@@ -116,7 +120,7 @@ func init() {
 		p := a[0].(*Value)
 		ms := m.mutex(p)
 		m.schedPoint("rlock")
-		m.blockUntil("RWMutex.RLock", func() bool { return !ms.locked })
+		m.blockUntil("RWMutex.RLock", func() bool { return !ms.locked && ms.waitingWriters == 0 })
 		ms.readers++
 		m.acq(ms.vc, "models.go#4")
 		m.lockEvent(p, "rlock")
